@@ -2,7 +2,7 @@
 from vlib import ref_token
 
 # candidates: printable non-alphanumerics and a few control characters
-SEG_CANDS = list('~!\'$%&?@[]{}|<>=;`^+#') + ['\n', '\x1c', '\x1e', '\x15']
+SEG_CANDS = list('~!\'$%&?@[]{}|<>=;`^+#') + ['\n', '\r', '\x1c', '\x1e', '\x15']
 ELE_CANDS = list('*|^+!,;=#%&@?<>{}') + ['\x1d', '\x1f']
 SUB_B = list(':!&()+,./;?=\'"*-')                    # component separator must be in the basic character set (all its punctuation, incl. * and -)
 SUB_E = SUB_B + list('\\|<>~@[]_{}#$%')              # ... or the extended one when charset E
@@ -62,5 +62,6 @@ def pick_terms(rng, text, charset='B', ctrl_ele=False, fmt_ele=False):
     ele_t = rng.choice(elec)
     subc = [c for c in (SUB_E if charset == 'E' else SUB_B) if c not in used and c not in (seg_t, ele_t)]
     sub_t = rng.choice(subc)
-    eol = rng.choice(EOLS) if seg_t not in '\r\n' else ''
+    # a line-break character as terminator may itself be followed by the other one (a CR LF file whose declared terminator is the CR)
+    eol = rng.choice(EOLS) if seg_t not in '\r\n' else rng.choice(['', '', '\n' if seg_t == '\r' else '\r'])
     return seg_t, ele_t, sub_t, eol
